@@ -320,6 +320,10 @@ func BuildCorpus() []*CorpusFile {
 	// OFF files in the wild carry edges as 2-vertex faces and stray points as 1-vertex faces.
 	d = []byte("OFF\n4 3 0\n0 0 0\n1 0 0\n0 1 0\n0 0 1\n3 0 1 2\n2 0 3\n1 2\n")
 	add("off_with_digon", "off", d, tokenFields(d))
+	// vertex lines that also read as face lines (a reader that loses its place
+	// after a fault in the vertex block takes "2 1 0" for a 2-vertex face)
+	d = []byte("OFF\n6 2 0\n2 0 1\n2 1 0\n2 3 1\n2 1 3\n2 5 4\n2 4 5\n3 0 1 2\n3 3 4 5\n")
+	add("off_intverts", "off", d, tokenFields(d))
 	for _, n := range []int{0, 1, 4} {
 		d := model3d.EncodePLY(smallMesh(n), colorOf)
 		add(fmt.Sprintf("ply_mesh_%d", n), "plymesh", d, tokenFields(d))
